@@ -2,7 +2,7 @@
    sent under its updateLock), with the lock discipline of Module.updateLock as auxiliary invariant *)
 From Coq Require Import List Arith Bool Lia.
 Import ListNotations.
-Require Import FV.C08.Model FV.C08.Lemmas FV.C08.Snapshot FV.C08.Silence.
+Require Import FV.C08.Model FV.C08.Lemmas FV.C08.Table FV.C08.Snapshot FV.C08.Silence.
 
 (* value of the last update message for p in a log *)
 Definition last_upd (p : pid) (l : list entry) : option nat :=
@@ -73,6 +73,11 @@ Proof.
   intros s c sc g m H. unfold holds in H. destruct (cth_enter_self s c sc g) as [_ [[_ E] | [_ E]]]; rewrite E in H; auto.
 Qed.
 
+Lemma not_holds_after : forall s c k m, holds (after_reset s c k) (TC c) m -> False.
+Proof.
+  intros s c k m H. unfold holds in H. destruct (cth_after_self s c k) as [_ E]; rewrite E in H. destruct k; auto.
+Qed.
+
 (* a step of connection thread a: every other thread holds what it held *)
 Ltac other_holder a N :=
   match goal with
@@ -132,6 +137,18 @@ Proof.
       * unfold holds in K; unf. rewrite upd_same in K; simpl in K. destruct K.
       * revert K; apply holds_C; unf; apply upd_other; auto.
       * revert K; apply holds_U; unf; auto.
+    + (* subscribe, second half *) apply (lock_same s); [auto | | unf; auto]. intros th' m' K. other_holder a N.
+      * exfalso; eapply not_holds_enter; eauto.
+      * revert K; apply holds_C; rewrite cth_enter_other by auto; auto.
+      * revert K; apply holds_U; unf; auto.
+    + (* last discard *) apply (lock_same s); [auto | | unf; auto]. intros th' m' K. other_holder a N.
+      * exfalso; eapply not_holds_after; eauto.
+      * revert K; apply holds_C; rewrite cth_after_other by auto; unf; auto.
+      * revert K; apply holds_U; unf; auto.
+    + (* discard *) apply (lock_same s); [auto | | unf; auto]. intros th' m' K. other_holder a N.
+      * unfold holds in K; unf. rewrite upd_same in K; simpl in K. destruct K.
+      * revert K; apply holds_C; unf; apply upd_other; auto.
+      * revert K; apply holds_U; unf; auto.
   - apply (cstep_cases nd s (TU u, x)); simpl; intros; auto; try discriminate; inversion H; subst u0; clear H;
       unfold release in *.
     + (* start *) apply (lock_same s); [auto | | unf; auto]. intros [c0 | u'] m' K.
@@ -185,6 +202,12 @@ Qed.
 Lemma not_csendu_enter : forall s c sc g sc' m i v todo g', c_pc (cth (enter_groups s c sc g) c) = CSendU sc' m i v todo g' -> False.
 Proof. intros. destruct (cth_enter_self s c sc g) as [_ [[_ E] | [_ E]]]; rewrite E in H; discriminate. Qed.
 
+Lemma not_csendu_after : forall s c k sc' m i v todo g', c_pc (cth (after_reset s c k) c) = CSendU sc' m i v todo g' -> False.
+Proof. intros. destruct (cth_after_self s c k) as [_ E]; rewrite E in H. destruct k; discriminate. Qed.
+
+Ltac v2after a V2 :=
+  eapply (val2_upd _ _ a); [exact V2 | unf; auto | intros; rewrite cth_after_other by auto; unf; rewrite ?upd_other by auto; auto
+                          | intros * B; exfalso; eapply not_csendu_after; eauto].
 Ltac v2simple a V2 :=
   eapply (val2_upd _ _ a); [exact V2 | unf; auto | intros; unf; rewrite ?upd_other by auto; auto
                           | intros *; unf; rewrite ?upd_same; simpl; try discriminate].
@@ -208,6 +231,9 @@ Proof.
     + intros c sc m i v rest HT HPC. inversion HT; subst c. v2enter a V2.
     + intros c sc m i v j todo rest HT HPC. inversion HT; subst c. v2simple a V2.
     + intros c r HT HPC. inversion HT; subst c. v2simple a V2.
+    + intros c sc id HT HPC. inversion HT; subst c. v2enter a V2.
+    + intros c t k HT HPC. inversion HT; subst c. v2after a V2.
+    + intros c t t' ts k HT HPC. inversion HT; subst c. v2simple a V2.
   - assert (NC : forall p, ulock s (fst p) = None -> forall c sc m i v todo g, c_pc (cth s c) = CSendU sc m i v todo g -> (m, i) <> p).
     { intros p UL c sc m i v todo g B E. subst p. assert (X : ulock s m = Some (TC c)) by (apply L; unfold holds; rewrite B; auto).
       simpl in UL. congruence. }
@@ -275,34 +301,37 @@ Proof.
     destruct (cth_enter_self s c sc g) as [_ [[-> E] | [G E]]]; rewrite E; simpl; auto.
 Qed.
 
-Lemma fresh_own_step : forall nd s c x, val_inv s -> fresh_inv nd s ->
+Lemma fresh_own_step : forall nd s c x, tbl_wf s -> val_inv s -> fresh_inv nd s ->
   forall p, listens (cstep nd s (TC c, x)) c p = true -> exported nd p = true -> fresh_at (cstep nd s (TC c, x)) c p.
 Proof.
-  intros nd s c x [_ V2] I p.
+  intros nd s c x WF [_ V2] I p.
   apply (cstep_cases nd s (TC c, x)); simpl; try (intros; discriminate).
   - intros LS EX. apply I; auto.
   - (* start *) intros c0 HT HPC LS EX. inversion HT; subst c0.
     assert (F := I c p LS EX). unfold fresh_at, cflight in *; unf. rewrite upd_same; simpl. rewrite HPC in F. tauto.
-  - (* close *) intros c0 rest HT HPC HSC LS EX. inversion HT; subst c0.
-    exfalso. rewrite (listens_ext (reset s c)) in LS by reflexivity. rewrite listens_reset_self in LS. discriminate.
+  - (* close: reset_connection starts *) intros c0 rest HT HPC HSC LS EX. inversion HT; subst c0.
+    assert (F := I c p LS EX). unfold fresh_at, cflight in *; unf. rewrite !upd_same; simpl.
+    rewrite last_upd_app. rewrite HPC in F. tauto.
   - (* request *) intros c0 r rest HT HPC HSC HNC LS EX. inversion HT; subst c0.
     assert (F := I c p LS EX). unfold fresh_at, cflight in *; unf. rewrite !upd_same; simpl.
     rewrite last_upd_app. rewrite HPC in F. tauto.
   - (* handler *) intros c0 r HT HPC HDL. inversion HT; subst c0.
     apply handle_cases.
-    + intros HR LS EX. exfalso. rewrite (listens_ext (reset s c)) in LS by reflexivity. rewrite listens_reset_self in LS. discriminate.
+    + intros HR LS EX. assert (F := I c p LS EX). unfold fresh_at, cflight in *; unf. rewrite upd_same; simpl. rewrite HPC in F. tauto.
     + intros sc HR LS EX. assert (F := I c p LS EX). unfold fresh_at, cflight in *; unf. rewrite upd_same; simpl. rewrite HPC in F. tauto.
     + intros sc HR LS EX. rewrite (listens_ext (unregister s c sc)) in LS by reflexivity. apply listens_unregister_le in LS.
       assert (F := I c p LS EX). unfold fresh_at, cflight in *; unf. rewrite upd_same; simpl. rewrite HPC in F. tauto.
     + intros sc HR LS EX. assert (F := I c p LS EX). unfold fresh_at, cflight in *; unf. rewrite upd_same; simpl. rewrite HPC in F. tauto.
     + intros sc e HR HAE LS EX. assert (F := I c p LS EX). unfold fresh_at, cflight in *; unf. rewrite upd_same; simpl. rewrite HPC in F. tauto.
-    + intros sc HR HAE LS EX. rewrite listens_enter in LS.
-      rewrite (listens_ext (register s c sc)) in LS by reflexivity. rewrite listens_register, Nat.eqb_refl in LS; simpl in LS.
-      apply fresh_enter. apply orb_true_iff in LS. destruct LS as [LS | LS].
-      * left. assert (F := I c p LS EX). apply fresh_split in F. destruct F as [F | F].
+    + intros HR LS EX. rewrite listens_enter in LS.
+      rewrite (listens_ext (register_g s c)) in LS by reflexivity. rewrite listens_register_g in LS.
+      apply fresh_enter. destruct (listens s c p) eqn:LS0.
+      * left. assert (F := I c p LS0 EX). apply fresh_split in F. destruct F as [F | F].
         -- unfold fresh3 in *; unf. auto.
         -- unfold cflight in F. rewrite HPC in F. destruct F.
-      * right. apply (snapshot_list_spec nd sc p HAE). auto.
+      * right. apply (snapshot_list_complete nd SG p); auto.
+    + intros sc HR HAE HSG LS EX. rewrite (listens_ext (fst (lookup s sc))) in LS by reflexivity. rewrite listens_lookup in LS.
+      assert (F := I c p LS EX). unfold fresh_at, cflight in *; unf. rewrite upd_same; simpl. rewrite HPC in F. tauto.
     + intros HR LS EX. assert (F := I c p LS EX). unfold fresh_at, cflight in *; unf. rewrite upd_same; simpl. rewrite HPC in F. tauto.
     + intros HR LS EX. assert (F := I c p LS EX). unfold fresh_at, cflight in *; unf. rewrite upd_same; simpl. rewrite HPC in F. tauto.
   - (* module lock, nothing to send *) intros c0 sc m rest HT HPC HUL LS EX. inversion HT; subst c0.
@@ -328,6 +357,25 @@ Proof.
   - (* reply *) intros c0 r HT HPC LS EX. inversion HT; subst c0.
     assert (F := I c p LS EX). unfold fresh_at, cflight in *; unf. rewrite !upd_same; simpl.
     rewrite last_upd_app. rewrite HPC in F. destruct r; simpl in *; tauto.
+  - (* subscribe, second half: what the connection listens to in addition is in the snapshot still to be sent *)
+    intros c0 sc id HT HPC LS EX. inversion HT; subst c0.
+    assert (LV : live s sc id) by (eapply wf_live; eauto).
+    rewrite listens_enter in LS. apply (listens_add_only s c id sc p) in LS; [| apply wf_unique; auto].
+    apply fresh_enter. destruct LS as [LS | LS].
+    + left. assert (F := I c p LS EX). apply fresh_split in F. destruct F as [F | F].
+      * unfold fresh3 in *; unf. auto.
+      * unfold cflight in F. rewrite HPC in F. destruct F.
+    + right. apply (snapshot_list_complete nd sc p); auto.
+  - (* last discard *) intros c0 t k HT HPC LS EX. inversion HT; subst c0.
+    rewrite listens_after in LS. apply listens_discard_le in LS.
+    assert (F := I c p LS EX). apply fresh_split in F. destruct F as [F | F].
+    + apply fresh3_fresh. unfold fresh3 in *; unf. auto.
+    + unfold cflight in F. rewrite HPC in F. destruct F.
+  - (* discard *) intros c0 t t' ts k HT HPC LS EX. inversion HT; subst c0.
+    rewrite (listens_ext (discard_target false s c t)) in LS by reflexivity. apply listens_discard_le in LS.
+    assert (F := I c p LS EX). apply fresh_split in F. destruct F as [F | F].
+    + apply fresh3_fresh. unfold fresh3 in *; unf. auto.
+    + unfold cflight in F. rewrite HPC in F. destruct F.
 Qed.
 
 Lemma fresh_upd_step : forall nd s u x, lock_inv s -> val_inv s -> fresh_inv nd s ->
@@ -401,9 +449,9 @@ Proof.
         -- right; right; left. exists u', w, al, pe. rewrite upd_other; auto.
 Qed.
 
-Lemma fresh_inv_step : forall nd s st, lock_inv s -> val_inv s -> fresh_inv nd s -> fresh_inv nd (cstep nd s st).
+Lemma fresh_inv_step : forall nd s st, tbl_wf s -> lock_inv s -> val_inv s -> fresh_inv nd s -> fresh_inv nd (cstep nd s st).
 Proof.
-  intros nd s [[a | u] x] L V I c p LS EX.
+  intros nd s [[a | u] x] WF L V I c p LS EX.
   - destruct (Nat.eq_dec a c) as [-> | N]; [apply fresh_own_step; auto |].
     destruct (isolation nd s a x c N) as [E1 [E2 [E3 [E4 [E5 _]]]]].
     rewrite E3 in LS. apply (fresh_at_frame s); auto.
@@ -411,20 +459,22 @@ Proof.
 Qed.
 
 (* ---- the run *)
-Definition all_inv (nd : node) (s : state) : Prop := lock_inv s /\ val_inv s /\ fresh_inv nd s.
+Definition all_inv (nd : node) (s : state) : Prop := lock_inv s /\ val_inv s /\ fresh_inv nd s /\ tbl_wf s.
 
 Lemma all_inv_step : forall nd s st, all_inv nd s -> all_inv nd (cstep nd s st).
 Proof.
-  intros nd s st [L [V I]]. repeat split; [apply lock_inv_step | apply val_inv_step | apply val_inv_step | apply fresh_inv_step]; auto.
+  intros nd s st [L [V [I W]]]. split; [apply lock_inv_step; auto |]. split; [apply val_inv_step; auto |].
+  split; [apply fresh_inv_step; auto | apply wf_step; auto].
 Qed.
 
 Lemma all_inv_init : forall nd cs us, all_inv nd (init cs us).
 Proof.
-  intros. repeat split.
+  intros. split; [| split; [split | split]].
   - intros [c | u] m H; simpl in H; [destruct H |]. destruct H as [p [[E | [v [al [pe E]]]] _]]; simpl in E; discriminate.
   - intros u p v al pe E; simpl in E; discriminate.
   - intros c sc m i v todo g E; simpl in E; discriminate.
   - intros c p L; unfold listens in L; simpl in L; discriminate.
+  - apply wf_init.
 Qed.
 
 Definition conn_idle (s : state) (c : conn) : Prop :=
@@ -443,7 +493,7 @@ Proof.
   intros nd cs us sched c p s. subst s. unfold run. intros LS EX UI CI.
   assert (A : all_inv nd (run_from nd (init cs us) sched)).
   { apply (run_invariant nd (all_inv nd)); [intros; apply all_inv_step; auto | apply all_inv_init]. }
-  destruct A as [_ [_ I]].
+  destruct A as [_ [_ [I _]]].
   destruct (I c p LS EX) as [F | [[u F] | [[u [v [al [pe [F _]]]]] | F]]]; auto.
   - specialize (UI u). unfold upd_idle in UI. rewrite F in UI. destruct UI.
   - specialize (UI u). unfold upd_idle in UI. rewrite F in UI. destruct UI.
@@ -534,7 +584,7 @@ Lemma broadcast_selects : forall nd s u x p,
   (forall c, listens s c p = false) /\ (u_pc (uth s' u) = UDone \/ u_pc (uth s' u) = UAcq)
   \/ exists all, u_pc (uth s' u) = USend p (cache s p) all all /\ NoDup all /\ forall c, In c all <-> listens s c p = true.
 Proof.
-  intros nd s u x p H s'. unfold s', cstep, cstep_upd, uenabled; simpl. rewrite H; simpl.
+  intros nd s u x p H s'. unfold s', cstep, cstep_gen, cstep_upd, uenabled; simpl. rewrite H; simpl.
   destruct (listeners s p) eqn:E.
   - left. split.
     + intros c. destruct (listens s c p) eqn:F; auto. apply listeners_spec in F. rewrite E in F. destruct F.
